@@ -409,10 +409,6 @@ func genEng(p *prng, prop string) EngScenario {
 		s.Rules = append(s.Rules, a, b)
 		n = len(s.Rules)
 	}
-	// stay outside the known-finding region D3 (an element written through one selector text and read through another
-	// that may denote the same element; replayed by the fixed regression scenarios): a container that is read through a
-	// computed selector is not assigned to
-	avoidD3(s.Rules)
 	// stay outside the known-finding region D2: a method reading F.I64 through its receiver is
 	// announced with Forget whenever an action changes F.I64
 	if usesGetI64(s.Rules) {
